@@ -29,8 +29,20 @@ def tests(repo):
 
 
 def demo(repo, path):
-    p = subprocess.run([PY, path], cwd=repo, capture_output=True, text=True, env=dict(os.environ, PYTHONPATH=repo), timeout=600)
-    return p.returncode, (p.stdout + p.stderr)[-400:]
+    # some demonstrations put "<three directories up>" first on sys.path (they were written inside the seeder's worktree as
+    # <worktree>/SEEDED/<n>/demo.py): run a copy from the same relative position inside a root whose geometry_tools is the
+    # tree under test, so that they import that tree and not the seeder's worktree
+    root = tempfile.mkdtemp(prefix="seeddemo.")
+    try:
+        os.symlink(os.path.join(repo, "geometry_tools"), os.path.join(root, "geometry_tools"))
+        d = os.path.join(root, "SEEDED", "x")
+        os.makedirs(d)
+        shutil.copy(path, os.path.join(d, "demo.py"))
+        p = subprocess.run([PY, os.path.join(d, "demo.py")], cwd=root, capture_output=True, text=True,
+                           env=dict(os.environ, PYTHONPATH=root), timeout=900)
+        return p.returncode, (p.stdout + p.stderr)[-400:]
+    finally:
+        shutil.rmtree(root, ignore_errors=True)
 
 
 def main():
